@@ -521,6 +521,9 @@ func ruleEvict(c *Ctx) {
 		}
 		c.inst(1)
 		top := fnName(TopLevel(site.Parent()))
+		if o, ok := p.ownedBy(site.Parent(), func(nm string) bool { return allowed[nm] }); ok {
+			top = o
+		}
 		c.check(allowed[top], top, "get requests are issued only for an entry that holds an event subscription", p.InstrPos(site), "addSubscriber (entry obtained from getSubscription(name, true)) or reset of a cached entry", "a resource is fetched without a prior event subscription: events between fetch and subscribe would be lost")
 	}
 	if fn := p.Fn("(*rescache.EventSubscription).addSubscriber"); fn != nil {
@@ -664,29 +667,41 @@ func ruleChanFor(field string) func(c *Ctx) {
 // DOM/valid-patterns (C12.1, C06.5)
 func ruleValidPatterns(c *Ctx) {
 	p := c.P
-	if fn := p.Fn("(*rescache.Cache).forEachMatch"); fn != nil {
+	{
+		// every ResourcePattern that is kept for matching passed IsValid()
 		isValid := p.Method("rescache.ResourcePattern.IsValid")
-		c.inst(1)
-		ok := false
-		for _, in := range instrsOf(fn) {
-			call, isC := in.(*ssa.Call)
-			if !isC {
+		rpT := p.Named("rescache.ResourcePattern")
+		n := 0
+		for _, fn := range p.Repo {
+			if TopLevel(fn).Pkg == nil || TopLevel(fn).Pkg.Pkg.Name() != "rescache" {
 				continue
 			}
-			if b, isB := call.Call.Value.(*ssa.Builtin); !isB || b.Name() != "append" {
-				continue
-			}
-			g := p.guardedBy(call, func(i *ssa.If) (bool, bool) {
-				if cl, ok := i.Cond.(*ssa.Call); ok && calleeFunc(&cl.Call) == isValid {
-					return true, true
+			for _, in := range instrsOf(fn) {
+				call, isC := in.(*ssa.Call)
+				if !isC {
+					continue
 				}
-				return false, false
-			})
-			if g != nil {
-				ok = true
+				if b, isB := call.Call.Value.(*ssa.Builtin); !isB || b.Name() != "append" {
+					continue
+				}
+				sl, ok := call.Type().Underlying().(*types.Slice)
+				if !ok || rpT == nil || !types.Identical(sl.Elem(), rpT) {
+					continue
+				}
+				n++
+				c.inst(1)
+				g := p.guardedBy(call, func(i *ssa.If) (bool, bool) {
+					if cl, ok := i.Cond.(*ssa.Call); ok && calleeFunc(&cl.Call) == isValid {
+						return true, true
+					}
+					return false, false
+				})
+				c.check(g != nil, fnName(fn), "only valid patterns are matched", p.InstrPos(call), "pattern kept only under IsValid()", "invalid patterns take part in matching")
 			}
 		}
-		c.check(ok, fnName(fn), "only valid patterns are matched", p.Pos(fn.Pos()), "pattern kept only under IsValid()", "invalid patterns take part in matching")
+		if n == 0 {
+			c.viol("(*rescache.Cache).forEachMatch", "only valid patterns are matched", "-", "no pattern list construction found")
+		}
 	}
 	if fn := p.Fn("(*rescache.Cache).handleSystemReset"); fn != nil {
 		fem := p.Method("rescache.Cache.forEachMatch")
